@@ -151,7 +151,9 @@ static void DecodeAdr(tStrComp const* pArg, unsigned Mask) {
 
     else if (!as_strncasecmp(pArg->str.p_str, "@IX", 3)) {
         /***Problem: Offset signed oder unsigned? */
-        AdrVals[0] = EvalStrIntExpressionOffs(pArg, 3, SInt8, &OK);
+        /* the expression parser has no unary plus: skip the '+' of @IX+off so that
+           the offset may start with a symbol or a parenthesis */
+        AdrVals[0] = EvalStrIntExpressionOffs(pArg, (pArg->str.p_str[3] == '+') ? 4 : 3, SInt8, &OK);
         if (OK) {
             AdrMode = ModIIX;
             AdrCnt  = 1;
